@@ -315,6 +315,8 @@ func (g *frameGen) mustFrames(kind string, vpn bool, r rangeSpec, syn bool, othe
 	return
 }
 
+var replyFileCtr int
+
 func runReplyCase(r *hx.Run, g *frameGen, w wire, dir string, dropsTagged string, row wiringRow, vpn bool, target rangeSpec, chunks [][][2]uint16, nRandom int) {
 	kind := row.kind()
 	syn := row.Cmd == "tcpSyn"
@@ -346,6 +348,19 @@ func runReplyCase(r *hx.Run, g *frameGen, w wire, dir string, dropsTagged string
 		p := filepath.Join(dir, "arp.cache")
 		os.WriteFile(p, []byte(sb.String()), 0o644)
 		args = append(args, "-a", p)
+	}
+	replyFileCtr++
+	if row.Cmd != "arp" && replyFileCtr%3 == 1 {
+		// the addresses also come as a --file list next to the subnet argument (the subnet then still selects the
+		// interface and is still the `src net` of the capture filter: replies from elsewhere are not reported)
+		var sb strings.Builder
+		for i := uint32(0); i < 1<<uint(32-target.bits); i++ {
+			sb.WriteString(fmt.Sprintf("{\"ip\":\"%s\"}\n", v4Text(target.addr+i)))
+		}
+		p := filepath.Join(dir, "targets.jsonl")
+		os.WriteFile(p, []byte(sb.String()), 0o644)
+		args = append(args, "-f", p)
+		r.Count("targets:file+subnet")
 	}
 	args = append(args, fmt.Sprintf("%s/%d", v4Text(target.addr), target.bits))
 
